@@ -232,6 +232,9 @@ def gen_meshes(ctx):
     return meshes
 
 
+COORD_DTYPES = ['float64', 'float64', 'int64', 'int32', 'float32']
+
+
 def entry_tasks(ctx, meshes, skip=0, first_id=0):
     tasks = []
     for mi, mesh in enumerate(meshes):
@@ -239,6 +242,9 @@ def entry_tasks(ctx, meshes, skip=0, first_id=0):
             continue
         dim = mesh['meta']['dim']
         m = {k: mesh[k] for k in ('node_ids', 'coords', 'blocks')}
+        # dtype of the node coordinate array (voxel grids keep integer coordinates)
+        mesh['meta'].setdefault('coord_dtype', ctx.rng.choice(COORD_DTYPES))
+        m['coord_dtype'] = mesh['meta']['coord_dtype']
         calls = []
         if dim == 3:
             for mode in c11_kernels.MODES:
@@ -276,6 +282,9 @@ def entry_call(t, which, name):
 
 def entry_tol(t, mesh):
     kinds = mesh['meta']['kinds']
+    if mesh['meta'].get('coord_dtype') == 'float32':
+        # every operation in binary32 (LAPACK sgetrf included): integer inputs <= 20
+        return Fraction(1, 2 ** 8), Fraction(1, 2 ** 14)
     if t['entry'] == 'normals':
         if 'polygon' in kinds:
             return Fraction(1, 2 ** 16), Fraction(0)          # float32 polygon accumulators
@@ -499,13 +508,16 @@ def mesh_defs_q(name, node_ids, coords, blocks):
             f'Definition blocks_{name} : list block := {lib.coq_list(bl)}.\n')
 
 
-MOTIONS = [
-    [{'kind': 'translation', 'v': [3.0, -2.0, 5.0]}],
-    [{'kind': 'rotation', 'axis': [0.0, 0.0, 1.0], 'theta': math.pi / 2}],
-    [{'kind': 'rotation', 'axis': [1.0, 0.0, 0.0], 'theta': math.pi / 2}],
-    [{'kind': 'rotation', 'axis': [1.0, 1.0, 1.0], 'theta': 2 * math.pi / 3}],
-    [{'kind': 'rotation', 'axis': [0.0, 1.0, 0.0], 'theta': math.pi},
-     {'kind': 'translation', 'v': [-1.0, 4.0, 2.0]}],
+MOTIONS = [   # (calls, exact linear part M, exact translation t) of the composed motion
+    ([{'kind': 'translation', 'v': [3.0, -2.0, 5.0]}], [[1, 0, 0], [0, 1, 0], [0, 0, 1]], [3, -2, 5]),
+    ([{'kind': 'rotation', 'axis': [0.0, 0.0, 1.0], 'theta': math.pi / 2}],
+     [[0, -1, 0], [1, 0, 0], [0, 0, 1]], [0, 0, 0]),
+    ([{'kind': 'rotation', 'axis': [1.0, 0.0, 0.0], 'theta': math.pi / 2}],
+     [[1, 0, 0], [0, 0, -1], [0, 1, 0]], [0, 0, 0]),
+    ([{'kind': 'rotation', 'axis': [1.0, 1.0, 1.0], 'theta': 2 * math.pi / 3}],
+     [[0, 0, 1], [1, 0, 0], [0, 1, 0]], [0, 0, 0]),
+    ([{'kind': 'rotation', 'axis': [0.0, 1.0, 0.0], 'theta': math.pi},
+      {'kind': 'translation', 'v': [-1.0, 4.0, 2.0]}], [[-1, 0, 0], [0, 1, 0], [0, 0, -1]], [-1, 4, 2]),
 ]
 
 
@@ -524,14 +536,16 @@ def motion_stream(ctx, model_ok):
                           else G.solid_mesh(rng, ks, o, dims=(2, 1, 1)))
     for mi, mesh in enumerate(meshes):
         m = {k: mesh[k] for k in ('node_ids', 'coords', 'blocks')}
+        m['coord_dtype'] = ['float64', 'int64', 'int32', 'float32'][mi % 4]
         entries = [('normals', 'centroid'), ('normals', 'linear'), ('areas', 'linear'), ('metrics', None)] \
             if mesh['meta']['dim'] == 2 else [('volumes', 'linear'), ('volumes', 'centroid'), ('metrics', None)]
         for entry, mode in entries:
             for pop_node in (False, True):
                 for order in ('qmq', 'mq'):
+                    mv = rng.choice(MOTIONS)
                     tasks.append({'id': len(tasks), 'kind': 'motion', 'mesh': m, 'mi': mi, 'entry': entry,
                                   'mode': mode, 'pop_node': pop_node, 'order': order,
-                                  'motions': rng.choice(MOTIONS)})
+                                  'motions': mv[0], 'M': mv[1], 't': mv[2]})
     res = run_impl(ctx, tasks, 'motion')
     defs, items, index = [], [], {}
     n_bad = 0
@@ -540,6 +554,7 @@ def motion_stream(ctx, model_ok):
         mesh = meshes[t['mi']]
         outcome = 'crash' if 'crash' in r else 'refused' if r.get('refused') else 'moved'
         ctx.count(f'motion:{outcome}:{"NODE popped" if t["pop_node"] else "as built"}:{t["order"]}')
+        ctx.count('motion:coord_dtype:' + t['mesh']['coord_dtype'])
         ctx.case(['motion', t['entry'], t['mode'], t['pop_node'], t['order'], t['motions'],
                   mesh['node_ids'], mesh['coords'], mesh['blocks']],
                  sample={'stream': 'same object: query, move in place, query', 'entry': t['entry'],
@@ -555,7 +570,23 @@ def motion_stream(ctx, model_ok):
         if outcome == 'refused':
             continue
         sec = r['second']
-        coords = [[hexq(x) for x in row] for row in r['coords_after']]
+        held = [[hexq(x) for x in row] for row in r['coords_after']]
+        # the moved mesh according to the exact rigid motion (the model's coordinates)
+        pos0 = dict(zip(t['mesh']['node_ids'], t['mesh']['coords']))
+        coords = [[Fraction(x) for x in G.apply_aff(t['M'], t['t'], pos0[i])] for i in r['node_ids_after']]
+        if any(abs(a - b) > Fraction(1, 10 ** 9) * max(1, abs(b))
+               for ra, rb in zip(held, coords) for a, b in zip(ra, rb)):
+            n_bad += 1
+            ctx.violation('impl-violation',
+                          {'stream': 'motion', **{k: t[k] for k in ('entry', 'mode', 'pop_node', 'order', 'motions', 'mesh')}},
+                          'node coordinates after the motion = exact rigid motion of the original ones',
+                          {'coords_after': [[float(x) for x in row] for row in held][:6],
+                           'expected': [[float(x) for x in row] for row in coords][:6]},
+                          'same-object motion stream: the motion itself', found_input=True,
+                          signature={'kind': 'motion-coordinates', 'motion': t['motions'][0]['kind'],
+                                     'coord_dtype': t['mesh']['coord_dtype']},
+                          what=f'{t["motions"][0]["kind"]}() does not move the nodes rigidly '
+                               f'(coordinate dtype {t["mesh"]["coord_dtype"]})')
         name = f'm{t["id"]}'
         defs.append(mesh_defs_q(name, r['node_ids_after'], coords, mesh['blocks']))
         vec = t['entry'] == 'normals'
@@ -563,6 +594,8 @@ def motion_stream(ctx, model_ok):
             eabs, erel = Fraction(1, 2 ** 30), Fraction(0)
         else:
             eabs, erel = Fraction(1, 2 ** 14), Fraction(1, 2 ** 16)
+        if t['mesh']['coord_dtype'] == 'float32':
+            eabs, erel = Fraction(1, 2 ** 8), Fraction(1, 2 ** 12)
         cl = f'(close3 {qf(eabs)} {qf(erel)})' if vec else f'(close {qf(eabs)} {qf(erel)})'
 
         def lit(values, ids):
@@ -613,6 +646,122 @@ def motion_stream(ctx, model_ok):
                                  'order': t['order'], 'motion': t['motions'][0]['kind']},
                       what=f'{t["entry"]}: {what} after {t["motions"][0]["kind"]}() is not that of the moved mesh')
     ctx.notes['motion_stream'] = {'cases': len(tasks), 'compared': len(items), 'failures': n_bad}
+    return len(tasks), n_bad
+
+
+# --------------------------- 5. option histories on one object (signs are part of the model)
+def history_stream(ctx, model_ok):
+    """several calls with different (mode, raise_negative, return_abs) on ONE object, on
+    mirrored (det M < 0) and ordinary, single-type and mixed meshes; every call must answer
+    like the model for exactly its own options"""
+    rng = ctx.rng
+    n = 3 if ctx.tier == 'quick' else 12
+    meshes, tasks = [], []
+    mirrored = [m for m in G.MATRICES if G.det3(m[1]) < 0]
+    for rep in range(n):
+        for dim, ks in ((3, ['hex', 'prism', 'tet']), (3, ['hex']), (3, ['tet']), (3, ['prism', 'tet']),
+                        (2, ['tri', 'quad'])):
+            o = G.random_opts(rng, jitter_ok=False)
+            o['matrix'] = rng.choice(mirrored) if rep % 3 != 2 else rng.choice(G.MATRICES)
+            o['shuffle_elems'] = rng.random() < 0.5
+            meshes.append(G.solid_mesh(rng, ks, o, dims=(2, 1, 1)) if dim == 3
+                          else G.shell_mesh(rng, ks, dict(o, ragged=False)))
+    flags = [(False, True), (False, False), (True, False), (True, True)]
+    for mi, mesh in enumerate(meshes):
+        m = {k: mesh[k] for k in ('node_ids', 'coords', 'blocks')}
+        for rep in range(3):
+            calls = []
+            for _ in range(rng.randint(2, 4)):
+                rs, ab = rng.choice(flags)
+                if mesh['meta']['dim'] == 3:
+                    e = rng.choice(['volumes', 'volumes', 'volumes', 'metrics', 'volumes_default'])
+                else:
+                    e = rng.choice(['areas', 'areas', 'metrics', 'normals'])
+                mode = rng.choice(c11_kernels.MODES) if e in ('volumes', 'areas', 'normals') else None
+                if e == 'volumes_default':
+                    mode, rs, ab = 'centroid', True, False
+                calls.append({'entry': e, 'mode': mode, 'raise': rs, 'abs': ab})
+            if rep == 0 and mesh['meta']['dim'] == 3:      # the canonical pair: absolute, then signed
+                calls = [{'entry': 'volumes', 'mode': 'centroid', 'raise': False, 'abs': True},
+                         {'entry': 'volumes', 'mode': 'centroid', 'raise': False, 'abs': False},
+                         {'entry': 'volumes_default', 'mode': 'centroid', 'raise': True, 'abs': False}]
+            tasks.append({'id': len(tasks), 'kind': 'history', 'mesh': m, 'mi': mi, 'calls': calls})
+    res = run_impl(ctx, tasks, 'history')
+    defs, items, done = [], [], set()
+    n_bad = 0
+    for t in tasks:
+        r = res[t['id']]
+        mesh = meshes[t['mi']]
+        ctx.count('history:' + ('mirrored' if mesh['meta']['det'] < 0 else 'not mirrored') + ':' +
+                  ('mixed' if mesh['meta']['mixed'] else 'single type'))
+        ctx.case(['history', t['calls'], mesh['node_ids'], mesh['coords'], mesh['blocks']],
+                 sample={'stream': 'option history on one object', 'calls': t['calls'],
+                         'det_M': mesh['meta']['det'], 'blocks': [[b[0], len(b[1])] for b in mesh['blocks']]})
+        if 'results' not in r:
+            n_bad += 1
+            ctx.violation('impl-violation', {'stream': 'history', 'calls': t['calls'], 'mesh': t['mesh']},
+                          'calls return or raise ValueError/NotImplementedError', r, 'option-history stream',
+                          found_input=True, signature={'kind': 'history-crash'})
+            continue
+        if t['mi'] not in done:
+            done.add(t['mi'])
+            defs.append(mesh_defs(f'h{t["mi"]}', mesh))
+        for k, (c, rr) in enumerate(zip(t['calls'], r['results'])):
+            e = 'volumes' if c['entry'] == 'volumes_default' else c['entry']
+            vec = e == 'normals'
+            tt = {'entry': e, 'mode': c['mode'], 'raise': c['raise'], 'abs': c['abs']}
+            eabs, erel = entry_tol(tt, mesh)
+            cl = f'(close3 {qf(eabs)} {qf(erel)})' if vec else f'(close {qf(eabs)} {qf(erel)})'
+            call = entry_call(tt, 'spec', f'h{t["mi"]}')
+            if 'error' in rr:
+                if rr['error'] == 'ValueError' and c['raise'] and not vec:
+                    items.append((16 * t['id'] + k, f'raise_ok ({call})'))
+                else:
+                    items.append((16 * t['id'] + k, f'agree {cl} ({call}) None'))
+            elif vec:
+                rows = [f'({zlit(i)}, {v3flit([hexq(x) for x in v])})' for i, v in zip(rr['ids'], rr['values'])]
+                items.append((16 * t['id'] + k, f'agree {cl} ({call}) (Some {lib.coq_list(rows)})'))
+            else:
+                rows = [f'({zlit(i)}, {qf(hexq(v))})' for i, v in zip(rr['ids'], rr['values'])]
+                items.append((16 * t['id'] + k, f'agree {cl} ({call}) (Some {lib.coq_list(rows)})'))
+    bad = []
+    if model_ok and items:
+        text = HEADER + '\n'.join(defs) + '\nDefinition cases : list (nat * bool) := [' + \
+            ';\n'.join(f'({i}%nat, {e})' for i, e in items) + '].\n' \
+            'Goal True. idtac "@@ failing". Abort.\n' \
+            'Eval vm_compute in map fst (filter (fun c => negb (snd c)) cases).\n'
+        rc, out, err = ctx.coq_eval('HistoryCases', text, timeout=900)
+        bad = failing(out, 'failing') if rc == 0 else None
+        if bad is None:
+            ctx.log('HistoryCases.v failed to compile:', err[-600:])
+            ctx.violation('tie-broken', {'stage': 'HistoryCases.v'}, 'case file compiles', err[-300:],
+                          'option-history stream', found_input=False,
+                          signature={'kind': 'case-file', 'file': 'HistoryCases'})
+            bad = []
+            n_bad += 1
+    byid = {t['id']: t for t in tasks}
+    for j in bad:
+        t = byid[j // 16]
+        k = j % 16
+        mesh = meshes[t['mi']]
+        n_bad += 1
+        c = t['calls'][k]
+        ctx.violation('impl-violation',
+                      {'stream': 'history', 'calls': t['calls'], 'failing_call': k, 'mesh': t['mesh'],
+                       'det_M': mesh['meta']['det']},
+                      'call k on the same object answers like the model for its own options '
+                      '(signed values are negative on a mirrored mesh; raise_negative raises)',
+                      {'results': res[t['id']]['results']},
+                      'C11_vol_affine_* (sign = sign det M) + _validate_metric on one object',
+                      found_input=True,
+                      signature={'kind': 'option-history', 'entry': c['entry'], 'call_index': k,
+                                 'raise': c['raise'], 'abs': c['abs'],
+                                 'mirrored': mesh['meta']['det'] < 0, 'mixed': mesh['meta']['mixed'],
+                                 'previous': [(p['entry'], p['raise'], p['abs']) for p in t['calls'][:k]][-1:]},
+                      what=f'call {k} ({c["entry"]}, raise={c["raise"]}, abs={c["abs"]}) after '
+                           f'{[(p["entry"], p["raise"], p["abs"]) for p in t["calls"][:k]]} on one object '
+                           'does not answer for its own options')
+    ctx.notes['history_stream'] = {'histories': len(tasks), 'calls_compared': len(items), 'failures': n_bad}
     return len(tasks), n_bad
 
 
@@ -700,6 +849,7 @@ def main(ctx):
         ctx.count('node_ids:' + meta['node_ids'] + ('/shuffled' if meta['shuffle_nodes'] else ''))
         ctx.count('elem_ids:' + meta['elem_ids'] + ('/shuffled' if meta['shuffle_elems'] else ''))
         ctx.count('jitter' if meta['jitter'] else 'affine')
+        ctx.count('coord_dtype:' + meta.get('coord_dtype', 'float64'))
         ctx.count('outcome:' + ('error:' + r['error'] if 'error' in r else
                                 'crash' if 'crash' in r else 'values'))
         ctx.case([t['entry'], t['mode'], t['raise'], t['abs'], mesh['node_ids'], mesh['coords'],
@@ -746,9 +896,11 @@ def main(ctx):
     n_aff_bad = oracle_affine(ctx, meshes, tasks, res)
     n_brick, n_brick_bad = oracle_brick(ctx, model_ok)
     n_motion, n_motion_bad = motion_stream(ctx, model_ok)
+    n_hist, n_hist_bad = history_stream(ctx, model_ok)
     ctx.notes['search_evaluations'] = len(tasks) + n_brick + n_motion
     ctx.notes['impl_property_failures'] = {'assembly': n_prop_bad, 'closed_form': n_aff_bad,
-                                           'brick': n_brick_bad, 'same_object_motion': n_motion_bad}
+                                           'brick': n_brick_bad, 'same_object_motion': n_motion_bad,
+                                           'option_history': n_hist_bad}
     # 6. broken tie / proof without a failing input
     found_any = len(ctx.violations) > n_viol_before or ctx.known
     if not tie_ok and not found_any:
